@@ -6,6 +6,13 @@ From PVPb Require Import Msg Proofs.BitsP Proofs.VarintP Proofs.WireP Proofs.Cas
 From Coq Require Import ZifyN ZifyNat ZifyBool.
 Open Scope Z_scope.
 
+(* what the shape says about a scalar: a declared `string` (modules faststr / string) holds valid UTF-8 *)
+Definition scalar_shape (p : proto_type) (x : val) : Prop :=
+  match scalar_module p with
+  | Some MFastStr | Some MString => utf8_valid (vbytes x) = true
+  | _ => True
+  end.
+
 Section Shape.
   Variable sc : schema.
 
@@ -24,7 +31,7 @@ Section Shape.
   | SFoneof ms x : (forall j v tag ty, x = VL (NOne j) [v] -> find_member ms tag 0 = Some (j, ty) -> shaped_ty ty v) ->
                    shaped_field (FOneof ms) x
   with shaped_ty : ty -> val -> Prop :=
-  | STscalar p x : shaped_ty (TScalar p) x
+  | STscalar p x : scalar_shape p x -> shaped_ty (TScalar p) x
   | STmsg j x : shaped j x -> shaped_ty (TMsg j) x.
 End Shape.
 
@@ -209,12 +216,21 @@ Section StepShape.
   Hypothesis rec_nit : forall j x tag wt c s, shaped sc j x -> nit (shaped sc j) (rec j x tag wt c s).
   Hypothesis dflt_shaped : forall t, ty_ok sc t = true -> shaped_ty sc t (dflt t).
 
+  Lemma nit_merge_ty_scalar p wt x c s : ty_ok sc (TScalar p) = true -> nit (shaped_ty sc (TScalar p)) (merge_ty rec (TScalar p) wt x c s).
+  Proof.
+    intros Hok. cbn [merge_ty]. cbn [ty_ok] in Hok. destruct (scalar_module p) as [m|] eqn:E; [|discriminate].
+    pose proof (nit_merge_scalar m wt s (scalar_module_scalar p m E)) as N.
+    destruct (merge_scalar m wt s) as [v s'|e s'|pp] eqn:Em; cbn [nit] in *; auto.
+    constructor. unfold scalar_shape. rewrite E.
+    destruct m; try exact I; unfold merge_scalar in Em; cbn in Em;
+      unfold string_merge, faststr_merge, bind in Em; destruct (bytes_merge_one_copy wt s) as [v0 s0|e0 s0|p0]; try discriminate Em;
+      destruct (utf8_valid (vbytes v0)) eqn:Eu; try discriminate Em; inversion Em; subst; exact Eu.
+  Qed.
+
   Lemma nit_merge_ty t wt x c s : ty_ok sc t = true -> shaped_ty sc t x -> nit (shaped_ty sc t) (merge_ty rec t wt x c s).
   Proof.
-    intros Hok Hx. destruct t as [p|j]; cbn [merge_ty].
-    - cbn [ty_ok] in Hok. destruct (scalar_module p) as [m|] eqn:E; [|discriminate].
-      eapply nit_weaken; [|apply nit_merge_scalar; eapply scalar_module_scalar; eauto]. intros; constructor.
-    - inversion Hx; subst. eapply nit_weaken; [intros a Ha; constructor; exact Ha|].
+    intros Hok Hx. destruct t as [p|j]; [apply nit_merge_ty_scalar; exact Hok|]. cbn [merge_ty].
+    inversion Hx; subst. eapply nit_weaken; [intros a Ha; constructor; exact Ha|].
       apply nit_message_merge; [|assumption]. intros. apply rec_nit. assumption.
   Qed.
 
@@ -289,6 +305,11 @@ Proof.
   unfold msgdesc_ok in Hs. apply andb_prop in Hs. destruct Hs as [Hs _]. apply andb_prop in Hs. tauto.
 Qed.
 
+Lemma default_scalar_shape p : scalar_shape p (default_scalar p).
+Proof.
+  unfold scalar_shape, default_scalar. destruct (scalar_module p) as [m|]; [|exact I]. destruct m; try exact I; reflexivity.
+Qed.
+
 Lemma default_field_shaped sc (dt : ty -> val) f : (forall t, ty_ok sc t = true -> shaped_ty sc t (dt t)) -> field_ok sc f = true ->
   shaped_field sc f (default_field dt f).
 Proof.
@@ -309,13 +330,13 @@ Proof.
     pose proof (schema_ok_fields sc i fs Hs E) as Hf. clear E.
     induction fs as [|f fs IHf]; cbn [map]; [constructor|].
     cbn [forallb] in Hf. apply andb_prop in Hf. destruct Hf as [Hf0 Hf1]. constructor; [|apply IHf; exact Hf1].
-    apply default_field_shaped; [|exact Hf0]. intros [p|j] Hok; [constructor|]. constructor. apply IH.
+    apply default_field_shaped; [|exact Hf0]. intros [p|j] Hok; [constructor; apply default_scalar_shape|]. constructor. apply IH.
     cbn [ty_ok] in Hok. apply Nat.ltb_lt in Hok. exact Hok.
 Qed.
 
 Lemma default_ty_shaped sc d t : schema_ok sc = true -> ty_ok sc t = true -> shaped_ty sc t (default_ty d sc t).
 Proof.
-  intros Hs Hok. destruct t as [p|j]; cbn [default_ty]; constructor. apply default_msg_shaped; [exact Hs|].
+  intros Hs Hok. destruct t as [p|j]; cbn [default_ty]; constructor; [apply default_scalar_shape|]. apply default_msg_shaped; [exact Hs|].
   cbn [ty_ok] in Hok. apply Nat.ltb_lt in Hok. exact Hok.
 Qed.
 
@@ -372,3 +393,7 @@ Qed.
 Example shaped_nonvacuous :
   schema_ok [[FSingular 1 (TScalar TYPE_INT32); FOptional 2 (TMsg 0); FMap 4 TYPE_STRING (TMsg 0)]] = true.
 Proof. vm_compute. reflexivity. Qed.
+
+(* what [shaped] says about strings: a singular / optional / oneof `string` field of a shaped message holds valid UTF-8 *)
+Lemma shaped_string_utf8 sc p x : shaped_ty sc (TScalar p) x -> scalar_module p = Some MFastStr -> utf8_valid (vbytes x) = true.
+Proof. intros H E. inversion H as [? ? Hs|]; subst. unfold scalar_shape in Hs. rewrite E in Hs. exact Hs. Qed.
